@@ -11,6 +11,7 @@ import AbraModel.Drv.Lex
 import AbraModel.Drv.StrOps
 import AbraModel.Drv.SrcMap
 import AbraModel.Drv.Sched
+import AbraModel.Drv.Heap
 import AbraModel.Drv.PatMatrix
 import AbraModel.Drv.Sem
 import AbraModel.Drv.Compile
@@ -21,6 +22,7 @@ import AbraModel.Drv.Names
 import AbraModel.Drv.PreludeCmp
 import AbraModel.Drv.Render
 import AbraModel.Drv.HashMap
+import AbraModel.Drv.Assign
 /- Line-protocol model driver: one request per input line (`<component> <args…>`), one answer per line. -/
 open Abra.Drv
 
@@ -45,6 +47,7 @@ def dispatch (line : String) : String :=
   | "srcmap" :: rest => handleSrcMap rest
   | "sched" :: rest => handleSched rest
   | "hostcall" :: rest => handleHostCall rest
+  | "heapcopy" :: rest => handleHeapCopy rest
   | "pm" :: rest => handlePatMatrix rest
   | "sem" :: rest => handleSem rest
   | "cgen" :: rest => handleCgen rest
@@ -55,6 +58,7 @@ def dispatch (line : String) : String :=
   | "cmp24" :: rest => handleCmp24 rest
   | "render" :: rest => handleRender rest
   | "hmap" :: rest => handleHMap rest
+  | "assign" :: rest => handleAssign rest
   | _ => "bad-op"
 
 partial def loop (h : IO.FS.Stream) (out : IO.FS.Stream) : IO Unit := do
